@@ -99,6 +99,15 @@ def krylov_and_autosave(env):
             env.check_eq(eff_extra, extra, "extra_krylov_tolerance unchanged when precision*extra >= 1e-12")
         else:
             env.check(_eq(env, precision * eff_extra, MIN_TOL), "adjusted tolerance is exactly the floor 1e-12")
+        # F-abs reading of the same computation in float64 (standard model: every operation is followed by
+        # *(1+e), |e| <= 2^-53; valid here, no under/overflow for precision in [1e-16,1]): the product
+        # fl(precision * fl(1e-12/precision)) can miss the floor by at most one ulp.
+        u = 2.0**-53
+        e1 = env.real("rounding_e1", lo=-u, hi=u)
+        e2 = env.real("rounding_e2", lo=-u, hi=u)
+        fl_prod = precision * ((MIN_TOL / precision) * (1 + e1)) * (1 + e2)
+        slack = (1 - 2.0**-51) if not env.mutant("fabs_no_ulp") else 1.0
+        env.check(_ge(env, fl_prod, MIN_TOL * slack), "F-abs: fl(precision*fl(1e-12/precision)) >= 1e-12*(1-2^-51)")
         # the value that reaches the Lanczos routine (consumer side)
         seen = {}
 
@@ -497,7 +506,7 @@ def cases(tier):
             krylov_and_autosave,
             covers=COVERS_CFG + [("emu_mps/solver_utils.py", "evolve_single")],
             bounds={"precision": "[1e-16, 1]", "extra_krylov_tolerance": "(0, 10]", "autosave_dt": "[-100, 1e4]"},
-            canaries=["dt_threshold_20", "floor_1e-11"],
+            canaries=["dt_threshold_20", "floor_1e-11", "fabs_no_ulp"],
             conc_samples=4,
         )
     ]
